@@ -10,6 +10,7 @@ CONSTANTS
   MaxIx = 1
   MaxDepth = 3
   CellMask = FALSE
+  CopyClear = FALSE
   Valueless = FALSE
   Deviations = {"RefusedAddLeavesChild", "ValuelessChildBreaksRemoval"}
 INVARIANT LengthsAgree
